@@ -168,7 +168,7 @@ def main():
     def replay_graph(vals, label):
         bad = find_nd_family(PR); return (True, bad) if bad else (False, "ok on family")
     jobs = [("find_ND_labels[%d nodes,%d edges]" % (nn, ne), mk_graph(nn, ne), dict(replay=replay_graph, timeout_ms=20000, maxpaths=200000, keyfn=lambda n, l: "properties.py:find_ND_labels:components"))
-            for nn, ne in ([(3, 2), (4, 2), (3, 3)] + ([(4, 3), (5, 3)] if thorough else []))]
+            for nn, ne in ([(3, 2), (4, 2), (3, 3), (4, 3)] + ([(5, 3)] if thorough else []))]
     # ---------------------------------------------------------------- 4. get_clean_labels on every valid labelling
     def run_clean(n):
         def run():
@@ -216,7 +216,7 @@ def main():
     def replay_merge(vals, label):
         bad = merge_family(PR); return (True, bad) if bad else (False, "ok on family")
     jobs += [("numbapkmerge[%d peaks,%d labels,%s]" % (npk, nl, "scaled" if sc else "unscaled"), run_merge(npk, nl, sc), dict(replay=replay_merge, timeout_ms=30000, keyfn=lambda n, l: "properties.py:numbapkmerge:sums"))
-             for npk, nl, sc in [(2, 2, False), (3, 2, True)] + ([(3, 2, False), (4, 2, True)] if thorough else [])]
+             for npk, nl, sc in [(2, 2, False), (3, 2, True), (3, 2, False)] + ([(4, 2, True)] if thorough else [])]
     harness.run_parallel(ck, jobs)
     # pk2dmerge's own arithmetic (source check: the dictionary is built from out[...] quotients)
     src = inspect.getsource(PR.pks_table.pk2dmerge)
